@@ -34,6 +34,11 @@ def tasks(tier, seed):
         for sup in supports_of([pair_fam], sizes=(4,) if q else (3, 4)):
             for m in ((3,) if q else (2, 3)):
                 out.append(stv.mk_task(rule, m, o, sup, C.K4, ("c07",), nmax=8 if W is None else 6, W=W, weight=12, xval_stride=6, split=4))
+    # random transfer out of one large pile with two kinds of next preference: a draw that took the same physical
+    # ballot twice would hand the minority continuation more than it holds (weights up to 5 per shape)
+    for (rule, o) in (sl[2], sl[3]):
+        for sup in ([F.fam("A>B", "A>C")] if q else [F.fam("A>B", "A>C"), F.fam("A>B", "A>C", "C"), F.fam("A>B>C", "A>C>B", "C>A>B")]):
+            out.append(stv.mk_task(rule, 2, o, sup, C.K3, ("c07",), nmax=6 if len(sup) == 2 else 7, W=5 if len(sup) == 2 else 4, weight=10, xval_stride=6))
     if not q:
         for (rule, o) in sl[:4]:
             W = 2 if o.get("transfer") == "random" else None
